@@ -208,8 +208,32 @@ pub fn sweep(run: &Run, tier: Tier) -> Totals {
                 }
             }
         }
-        if is_rook { &rook } else { &bishop }.fetch_add(n, Ordering::Relaxed);
-        bmi.fetch_add(nb, Ordering::Relaxed);
+        // population ladders over the off-ray squares and every triple of off-ray squares within
+        // distance 2 of the slider, each with the reduced ray-subset list
+        let mut more: Vec<u64> = vec![];
+        for k in 0..=off.len() {
+            more.push(off.iter().take(k).fold(0u64, |a, q| a | (1u64 << q)));
+            more.push(off.iter().rev().take(k).fold(0u64, |a, q| a | (1u64 << q)));
+            more.push((0..k).fold(0u64, |a, i| a | (1u64 << off[(i * 37) % off.len().max(1)])));
+        }
+        let near: Vec<u8> = off.iter().copied().filter(|q| (file_of(*q) - file_of(s)).abs() <= 2 && (rank_of(*q) - rank_of(s)).abs() <= 2).collect();
+        for (i, a) in near.iter().enumerate() {
+            for (j, b) in near.iter().enumerate().skip(i + 1) {
+                for c in near.iter().skip(j + 1) {
+                    more.push((1u64 << a) | (1u64 << b) | (1u64 << c));
+                }
+            }
+        }
+        let (mut n2, mut nb2) = (0u64, 0u64);
+        'more: for noise in more {
+            for &sub in subs.iter() {
+                if !check(sub | noise, walk(s, sub, dirs), &mut n2, &mut nb2) {
+                    break 'more;
+                }
+            }
+        }
+        if is_rook { &rook } else { &bishop }.fetch_add(n + n2, Ordering::Relaxed);
+        bmi.fetch_add(nb + nb2, Ordering::Relaxed);
     });
     Totals { rook: rook.load(Ordering::Relaxed), bishop: bishop.load(Ordering::Relaxed), bmi: bmi.load(Ordering::Relaxed), subsets: subsets.load(Ordering::Relaxed), noise: noise_n.load(Ordering::Relaxed) }
 }
@@ -222,7 +246,7 @@ pub fn build_name() -> &'static str {
     }
 }
 
-pub const RULE: &str = "for each of the 64 squares and each of rook / bishop: EVERY subset of the squares on its rays (edge squares included; 2^14 per rook square, up to 2^13 per bishop square) combined with a catalogue of occupancies of the non-ray squares (none, all, two checkerboards, own square, every single non-ray square; thorough: also adjacent pairs); additionally EVERY PAIR of non-ray squares (with and without the slider's own square) combined with the empty, the full, every single-square and every all-but-one ray subset (quick) or with every ray subset (thorough); lookup must equal walking each ray up to and including the first occupied square. Run in the default build (magic multiplication) and, as a child process, in the +bmi2 build where the pext/pdep variants are judged as well on every input (so bmi == magic == ray walk). distinct_nontrivial = distinct (square, piece, ray subset) cases";
+pub const RULE: &str = "for each of the 64 squares and each of rook / bishop: EVERY subset of the squares on its rays (edge squares included; 2^14 per rook square, up to 2^13 per bishop square) combined with a catalogue of occupancies of the non-ray squares (none, all, two checkerboards, own square, every single non-ray square; thorough: also adjacent pairs); additionally population ladders over the non-ray squares, every triple of non-ray squares within distance 2 of the slider, and EVERY PAIR of non-ray squares (with and without the slider's own square) combined with the empty, the full, every single-square and every all-but-one ray subset (quick) or with every ray subset (thorough); lookup must equal walking each ray up to and including the first occupied square. Run in the default build (magic multiplication) and, as a child process, in the +bmi2 build where the pext/pdep variants are judged as well on every input (so bmi == magic == ray walk). distinct_nontrivial = distinct (square, piece, ray subset) cases";
 
 /// Worker mode in the +bmi2 binary: run the sweep, print one JSON line.
 pub fn worker(tier: Tier) -> i32 {
